@@ -331,12 +331,34 @@ fn cli_rss(ctx: &Ctx) {
         let mut failed = false;
         for (label, n) in [("small", small), ("large", large)] {
             let ct = wd.file(&format!("{}-{}.ktl", mode, label));
-            let mut e = Cmd::new(&wd.path, &enc_args).pass(epw).stdin(Stdin::Zeros(n)).stdout(Stdout::File(ct.clone()));
+            // ru_maxrss of a child spawned by this monitor is polluted by the monitor's own high-water mark
+            // (the kernel records the old mm's hiwater at exec); GNU time(1) is a tiny intermediate parent
+            // whose wait4 reading of the real binary is clean.
+            let kbin = crate::cli::kestrel_bin().to_string_lossy().into_owned();
+            let timed = |args: &Vec<&str>, rssfile: &str| -> Vec<String> {
+                let mut v: Vec<String> = vec!["-f".into(), "%M".into(), "-o".into(), rssfile.to_string(), kbin.clone()];
+                v.extend(args.iter().map(|a| a.to_string()));
+                v
+            };
+            let read_rss = |p: &std::path::Path| -> i64 { std::fs::read_to_string(p).ok().and_then(|t| t.lines().last().and_then(|l| l.trim().parse().ok())).unwrap_or(-1) };
+            let (erss, drss) = (wd.file("enc.rss"), wd.file("dec.rss"));
+            let ea = timed(&enc_args, &erss.to_string_lossy());
+            let ear: Vec<&str> = ea.iter().map(|x| x.as_str()).collect();
+            let mut e = Cmd::new(&wd.path, &ear).bin("/usr/bin/time".into()).pass(epw).stdin(Stdin::Zeros(n)).stdout(Stdout::File(ct.clone()));
             e.timeout = std::time::Duration::from_secs(900);
-            let eo = e.run();
-            let mut d = Cmd::new(&wd.path, &dec_args).pass(dpw).stdin(Stdin::File(ct.clone())).stdout(Stdout::Null);
+            let mut eo = e.run();
+            let da = timed(&dec_args, &drss.to_string_lossy());
+            let dar: Vec<&str> = da.iter().map(|x| x.as_str()).collect();
+            let mut d = Cmd::new(&wd.path, &dar).bin("/usr/bin/time".into()).pass(dpw).stdin(Stdin::File(ct.clone())).stdout(Stdout::Null);
             d.timeout = std::time::Duration::from_secs(900);
-            let dout = d.run();
+            let mut dout = d.run();
+            eo.maxrss_kb = read_rss(&erss);
+            dout.maxrss_kb = read_rss(&drss);
+            if eo.maxrss_kb <= 0 || dout.maxrss_kb <= 0 {
+                ctx.inconclusive("C11 cli: could not read the max RSS reported by time(1)");
+                failed = true;
+                break;
+            }
             let ct_len = std::fs::metadata(&ct).map(|m| m.len()).unwrap_or(0);
             let _ = std::fs::remove_file(&ct);
             ctx.eval();
